@@ -30,7 +30,21 @@ Definition getv (o : option val) : val := match o with Some v => v | None => VUn
 Definition mapv (m : mode) (f : val -> val) (o : option val) : option val :=
   match m with Emit => Some (f (getv o)) | Check => None end.
 
+(* Known defects of the code, each behind a flag.  The flag vector that matches /repo today is
+   chosen by the correspondence check (and is tied to the code by it); the refinement theorems
+   are about the machine with every flag off.  A flag is switched off for good when the
+   corresponding `fix:` commit lands in /repo. *)
+Record quirks := mkQ {
+  q_zst_noop : bool;        (* F7: add_alt_err ignores zero-sized errors *)
+  q_look_trunc : bool;      (* F1: and_is / rewind reposition with a truncating rewind *)
+  q_trymap_drop : bool;     (* F2: try_map drops the sheltered alt when its parser fails *)
+  q_trymap_pos : bool;      (* F12: a successful try_map re-adds the inner alt at its own start *)
+  q_maperr_drop : bool      (* F3: map_err drops the sheltered alt when its parser succeeds *)
+}.
+Definition no_quirks : quirks := mkQ false false false false false.
+
 Section Machine.
+Variable Q : quirks.
 Variable K : ekind.
 Variable toks : list tok.
 Variable spn : nat -> nat -> span.     (* Input::span for two cursors, as token indices *)
@@ -44,7 +58,13 @@ Definition next (s : st) : option tok * st :=
 Definition alt_ef (s : st) (exp : list N) (found : option tok) (sp : span) : st :=
   set_alt s (add_alt K (alt s) (cur s) exp found sp).
 Definition alt_err (s : st) (p : nat) (e : err) : st :=
-  set_alt s (add_alt_err K (alt s) p e).
+  set_alt s (add_alt_err (q_zst_noop Q) K (alt s) p e).
+(* restore cursor and inspector without touching the error list *)
+Definition reposition (s : st) (c : ckpt) : st :=
+  match c with (p, _, u) => mkSt p (sec s) (alt s) u end.
+(* merge a sheltered sub-parse's pending error back into the register *)
+Definition join_alt (s : st) (new : option lerr) : st :=
+  match new with Some (p, e) => alt_err s p e | None => s end.
 
 (* one-token primitives share this shape: save; next; accept or (span; rewind; add_alt; Err) *)
 Definition one_tok (m : mode) (acc : tok -> option val) (exp : list N) (s : st) : outcome * st :=
@@ -250,89 +270,29 @@ Fixpoint rep_fast (fuel : nat) (m : mode) (a : G) (ctx : val) (s : st) : outcome
       end
   end.
 
-(* generic unit loop: make_iter::<Check>; loop next::<Check> (with progress assertion for
-   Repeated / SeparatedBy; IterConfigure::go has none) *)
-Fixpoint unit_loop (fuel : nat) (m : mode) (i : IT) (asserted : bool) (ctx : val) (its : itst) (s : st)
-  : outcome * st :=
+(* The generic driver behind every finisher: call `next` until it yields None (or [lim] items
+   have been taken), recording for every item its value, the cursor before and after the call and
+   the user state after it.  [pa idx] says whether the debug progress assertion applies to
+   iteration idx.  Result flag: true = the iterator ended (None), false = stopped by [lim]. *)
+Definition item := (val * nat * nat * N)%type.
+Fixpoint drive (fuel : nat) (m : mode) (i : IT) (ctx : val) (its : itst) (lim : option nat)
+         (pa : nat -> bool) (idx : nat) (acc : list item) (s : st) : outcome * list item * bool * st :=
   match fuel with
-  | 0 => (OutOfFuel, s)
+  | 0 => (OutOfFuel, acc, false, s)
   | S fuel' =>
-      match it_next Check i ctx its s with
-      | (ISome _, its', s1) =>
-          if andb asserted (Nat.eqb (cur s) (cur s1)) then (Panic PProgress, s1)
-          else unit_loop fuel' m i asserted ctx its' s1
-      | (INone, _, s1) => (Ok (bindv m VUnit), s1)
-      | (IErr, _, s1) => (Err, s1)
-      | (IPanic k, _, s1) => (Panic k, s1)
-      | (IOOF, _, s1) => (OutOfFuel, s1)
-      end
-  end.
-
-(* Collect: progress asserted from the second iteration on, unless NONCONSUMPTION_IS_OK *)
-Fixpoint collect_loop (fuel : nat) (m : mode) (i : IT) (ctx : val) (its : itst) (idx : nat)
-         (acc : list val) (s : st) : outcome * list val * st :=
-  match fuel with
-  | 0 => (OutOfFuel, acc, s)
-  | S fuel' =>
-      match it_next m i ctx its s with
-      | (ISome v, its', s1) =>
-          if andb (negb (noncons_ok i)) (andb (Nat.leb 1 idx) (Nat.eqb (cur s) (cur s1)))
-          then (Panic PProgress, acc, s1)
-          else collect_loop fuel' m i ctx its' (S idx) (getv v :: acc) s1
-      | (INone, _, s1) => (Ok None, acc, s1)
-      | (IErr, _, s1) => (Err, acc, s1)
-      | (IPanic k, _, s1) => (Panic k, acc, s1)
-      | (IOOF, _, s1) => (OutOfFuel, acc, s1)
-      end
-  end.
-
-(* CollectExactly: exactly n calls to next, no progress assertion, no alt on a short iterator *)
-Fixpoint exactly_loop (n : nat) (m : mode) (i : IT) (ctx : val) (its : itst) (acc : list val) (s : st)
-  : outcome * list val * st :=
-  match n with
-  | 0 => (Ok None, acc, s)
-  | S n' =>
-      match it_next m i ctx its s with
-      | (ISome v, its', s1) => exactly_loop n' m i ctx its' (getv v :: acc) s1
-      | (INone, _, s1) => (Err, acc, s1)
-      | (IErr, _, s1) => (Err, acc, s1)
-      | (IPanic k, _, s1) => (Panic k, acc, s1)
-      | (IOOF, _, s1) => (OutOfFuel, acc, s1)
-      end
-  end.
-
-(* Foldl / FoldlWith: progress asserted on every iteration unless NONCONSUMPTION_IS_OK *)
-Fixpoint foldl_loop (fuel : nat) (m : mode) (i : IT) (ctx : val) (its : itst)
-         (step : val -> val -> st -> val) (acc : option val) (s : st) : outcome * st :=
-  match fuel with
-  | 0 => (OutOfFuel, s)
-  | S fuel' =>
-      match it_next m i ctx its s with
-      | (ISome v, its', s1) =>
-          if andb (negb (noncons_ok i)) (Nat.eqb (cur s) (cur s1)) then (Panic PProgress, s1)
-          else foldl_loop fuel' m i ctx its' step
-                          (match m with Emit => Some (step (getv acc) (getv v) s1) | Check => None end) s1
-      | (INone, _, s1) => (Ok acc, s1)
-      | (IErr, _, s1) => (Err, s1)
-      | (IPanic k, _, s1) => (Panic k, s1)
-      | (IOOF, _, s1) => (OutOfFuel, s1)
-      end
-  end.
-
-(* Foldr / FoldrWith item collection: items with the cursor before each `next` call *)
-Fixpoint foldr_items (fuel : nat) (m : mode) (i : IT) (ctx : val) (its : itst)
-         (acc : list (val * nat)) (s : st) : outcome * list (val * nat) * st :=
-  match fuel with
-  | 0 => (OutOfFuel, acc, s)
-  | S fuel' =>
-      match it_next m i ctx its s with
-      | (ISome v, its', s1) =>
-          if andb (negb (noncons_ok i)) (Nat.eqb (cur s) (cur s1)) then (Panic PProgress, acc, s1)
-          else foldr_items fuel' m i ctx its' ((getv v, cur s) :: acc) s1
-      | (INone, _, s1) => (Ok None, acc, s1)
-      | (IErr, _, s1) => (Err, acc, s1)
-      | (IPanic k, _, s1) => (Panic k, acc, s1)
-      | (IOOF, _, s1) => (OutOfFuel, acc, s1)
+      match lim with
+      | Some 0 => (Ok None, acc, false, s)
+      | _ =>
+        match it_next m i ctx its s with
+        | (ISome v, its', s1) =>
+            if andb (pa idx) (Nat.eqb (cur s) (cur s1)) then (Panic PProgress, acc, false, s1)
+            else drive fuel' m i ctx its' (option_map Nat.pred lim) pa (S idx)
+                       ((getv v, cur s, cur s1, ust s1) :: acc) s1
+        | (INone, _, s1) => (Ok None, acc, true, s1)
+        | (IErr, _, s1) => (Err, acc, false, s1)
+        | (IPanic k, _, s1) => (Panic k, acc, false, s1)
+        | (IOOF, _, s1) => (OutOfFuel, acc, false, s1)
+        end
       end
   end.
 
@@ -388,10 +348,11 @@ End Loops.
 Definition ctxify (l : nat) (start : nat) (e : lerr) : lerr :=
   (fst e, in_context K l (spn start (fst e)) (snd e)).
 
-Definition fold_step (k : nat) (acc x : val) (_ : st) : val := VTag k (VPair acc x).
-Definition fold_step_with (k : nat) (start : nat) (ctx : val) (acc x : val) (s : st) : val :=
-  VTag k (VPair (VPair acc x)
-                (VPair (VSpan (fst (spn start (cur s))) (snd (spn start (cur s)))) (VNat (N.to_nat (ust s))))).
+Definition item_val (it : item) : val := match it with (v, _, _, _) => v end.
+Definition item_before (it : item) : nat := match it with (_, b, _, _) => b end.
+Definition item_after (it : item) : nat := match it with (_, _, a, _) => a end.
+Definition item_ust (it : item) : N := match it with (_, _, _, u) => u end.
+Definition vspan (sp : span) : val := VSpan (fst sp) (snd sp).
 
 (* ---------- the interpreter ---------- *)
 Fixpoint go (n : nat) (m : mode) (g : G) (ctx : val) (s : st) {struct n} : outcome * st :=
@@ -441,7 +402,7 @@ Fixpoint go (n : nat) (m : mode) (g : G) (ctx : val) (s : st) {struct n} : outco
       end
   | ToSpan a =>
       match run m a ctx s with
-      | (Ok _, s1) => (Ok (bindv m (VSpan (fst (spn (cur s) (cur s1))) (snd (spn (cur s) (cur s1))))), s1)
+      | (Ok _, s1) => (Ok (bindv m (vspan (spn (cur s) (cur s1)))), s1)
       | res => res
       end
   | ToSlice a =>
@@ -464,9 +425,14 @@ Fixpoint go (n : nat) (m : mode) (g : G) (ctx : val) (s : st) {struct n} : outco
           if holds p (getv v) then
             let s2 := set_alt s1 old in
             (Ok (bindv m (ap1 f (getv v))),
-             match new with Some (_, e) => alt_err s2 (cur s) e | None => s2 end)
+             if q_trymap_pos Q
+             then match new with Some (_, e) => alt_err s2 (cur s) e | None => s2 end
+             else join_alt s2 new)
           else (Err, alt_err (set_alt s1 old) (cur s) (custom_err K k (spn (cur s) (cur s1))))
-      | res => res                       (* `?`: the sheltered alt is dropped *)
+      | (Err, s1) =>
+          if q_trymap_drop Q then (Err, s1)      (* `?`: the sheltered alt is dropped *)
+          else (Err, join_alt (set_alt s1 old) (alt s1))
+      | res => res
       end
   | TryMapWith p f k a =>
       match run Emit a ctx s with
@@ -565,7 +531,7 @@ Fixpoint go (n : nat) (m : mode) (g : G) (ctx : val) (s : st) {struct n} : outco
       match run m a ctx s with
       | (Ok v, s1) =>
           let after := save s1 in
-          match run Check b ctx (rewind s1 before) with
+          match run Check b ctx (if q_look_trunc Q then rewind s1 before else reposition s1 before) with
           | (Ok _, s2) => (Ok v, rewind s2 after)
           | res => res
           end
@@ -575,63 +541,83 @@ Fixpoint go (n : nat) (m : mode) (g : G) (ctx : val) (s : st) {struct n} : outco
   | Rewind a =>
       let before := save s in
       match run m a ctx s with
-      | (Ok v, s1) => (Ok v, rewind s1 before)
+      | (Ok v, s1) => (Ok v, if q_look_trunc Q then rewind s1 before else reposition s1 before)
       | res => res
       end
   | RepUnit i =>
       match i with
       | IRep a 0 None => rep_fast run n' m a ctx s
-      | IRep _ _ _ | ISep _ _ _ _ _ _ => unit_loop run n' m i true ctx (mk_iter i ctx) s
-      | _ => unit_loop run n' m i false ctx (mk_iter i ctx) s
+      | _ =>
+          let asserted := match i with IRep _ _ _ | ISep _ _ _ _ _ _ => true | _ => false end in
+          match drive run n' Check i ctx (mk_iter i ctx) None (fun _ => asserted) 0 [] s with
+          | (Ok _, _, _, s1) => (Ok (bindv m VUnit), s1)
+          | (res, _, _, s1) => (res, s1)
+          end
       end
   | Collect c i =>
-      match collect_loop run n' m i ctx (mk_iter i ctx) 0 [] s with
-      | (Ok _, acc, s1) =>
+      match drive run n' m i ctx (mk_iter i ctx) None
+                  (fun idx => andb (negb (noncons_ok i)) (Nat.leb 1 idx)) 0 [] s with
+      | (Ok _, acc, _, s1) =>
           (Ok (bindv m (match c with
-                        | CVec => VList (rev acc)
+                        | CVec => VList (rev (map item_val acc))
                         | CCount => VNat (length acc)
                         | CUnit => VUnit
                         end)), s1)
-      | (res, _, s1) => (res, s1)
+      | (res, _, _, s1) => (res, s1)
       end
   | CollectExactly k i =>
-      match exactly_loop run k m i ctx (mk_iter i ctx) [] s with
-      | (Ok _, acc, s1) => (Ok (bindv m (VList (rev acc))), s1)
-      | (res, _, s1) => (res, s1)
+      match drive run (S k) m i ctx (mk_iter i ctx) (Some k) (fun _ => false) 0 [] s with
+      | (Ok _, acc, false, s1) => (Ok (bindv m (VList (rev (map item_val acc)))), s1)
+      | (Ok _, _, true, s1) => (Err, s1)          (* iterator ended early: Err without recording an alt *)
+      | (res, _, _, s1) => (res, s1)
       end
   | Foldl a i k =>
       match run m a ctx s with
-      | (Ok va, s1) => foldl_loop run n' m i ctx (mk_iter i ctx) (fold_step k) va s1
+      | (Ok va, s1) =>
+          match drive run n' m i ctx (mk_iter i ctx) None (fun _ => negb (noncons_ok i)) 0 [] s1 with
+          | (Ok _, acc, _, s2) =>
+              (Ok (mapv m (fun a0 => fold_left (fun acc it => VTag k (VPair acc (item_val it))) (rev acc) a0) va), s2)
+          | (res, _, _, s2) => (res, s2)
+          end
       | res => res
       end
   | FoldlWith a i k =>
       match run m a ctx s with
-      | (Ok va, s1) => foldl_loop run n' m i ctx (mk_iter i ctx) (fold_step_with k (cur s) ctx) va s1
+      | (Ok va, s1) =>
+          match drive run n' m i ctx (mk_iter i ctx) None (fun _ => negb (noncons_ok i)) 0 [] s1 with
+          | (Ok _, acc, _, s2) =>
+              (Ok (mapv m (fun a0 =>
+                     fold_left (fun acc it =>
+                       VTag k (VPair (VPair acc (item_val it))
+                                     (VPair (vspan (spn (cur s) (item_after it))) (VNat (N.to_nat (item_ust it))))))
+                       (rev acc) a0) va), s2)
+          | (res, _, _, s2) => (res, s2)
+          end
       | res => res
       end
   | Foldr i b k =>
-      match foldr_items run n' m i ctx (mk_iter i ctx) [] s with
-      | (Ok _, items, s1) =>
+      match drive run n' m i ctx (mk_iter i ctx) None (fun _ => negb (noncons_ok i)) 0 [] s with
+      | (Ok _, acc, _, s1) =>
           match run m b ctx s1 with
           | (Ok vb, s2) =>
-              (Ok (mapv m (fun b0 => fold_left (fun acc it => VTag k (VPair (fst it) acc)) items b0) vb), s2)
+              (Ok (mapv m (fun b0 => fold_left (fun acc it => VTag k (VPair (item_val it) acc)) acc b0) vb), s2)
           | res => res
           end
-      | (res, _, s1) => (res, s1)
+      | (res, _, _, s1) => (res, s1)
       end
   | FoldrWith i b k =>
-      match foldr_items run n' m i ctx (mk_iter i ctx) [] s with
-      | (Ok _, items, s1) =>
+      match drive run n' m i ctx (mk_iter i ctx) None (fun _ => negb (noncons_ok i)) 0 [] s with
+      | (Ok _, acc, _, s1) =>
           match run m b ctx s1 with
           | (Ok vb, s2) =>
               (Ok (mapv m (fun b0 =>
                      fold_left (fun acc it =>
-                       VTag k (VPair (VPair (fst it) acc)
-                                     (VPair (VSpan (fst (spn (snd it) (cur s2))) (snd (spn (snd it) (cur s2))))
-                                            (VNat (N.to_nat (ust s2)))))) items b0) vb), s2)
+                       VTag k (VPair (VPair (item_val it) acc)
+                                     (VPair (vspan (spn (item_before it) (cur s2))) (VNat (N.to_nat (ust s2))))))
+                       acc b0) vb), s2)
           | res => res
           end
-      | (res, _, s1) => (res, s1)
+      | (res, _, _, s1) => (res, s1)
       end
   | RecoverVia a b =>
       let before := save s in
@@ -710,7 +696,10 @@ Fixpoint go (n : nat) (m : mode) (g : G) (ctx : val) (s : st) {struct n} : outco
           | None => (Panic PUnwrapMapErr, s1)
           | Some (p, e) => (Err, alt_err (set_alt s1 old) p (map_err_fn K k e))
           end
-      | res => res                       (* on success the sheltered alt is not restored *)
+      | (Ok v, s1) =>
+          if q_maperr_drop Q then (Ok v, s1)     (* the sheltered alt is not restored *)
+          else (Ok v, join_alt (set_alt s1 old) (alt s1))
+      | res => res
       end
   | WithCtx c a => run m a c s
   | IgnoreWithCtx a b =>
